@@ -199,7 +199,7 @@ def run(ck):
             if kind == "udp":
                 # an out-of-order frame arms the tunnel's two-second timer; the user disconnects before it fires, at it, after it
                 t0 = 20.0
-                for d in (None, 0.2, 1.0, 1.9, 2.0, 2.1, 3.5) if ck.tier == "quick" else [None] + [x / 10 for x in range(1, 40, 2)]:
+                for d in (None, 0.2, 0.7, 1.0, 1.9, 2.0, 2.1, 3.5) if ck.tier == "quick" else [None] + [x / 10 for x in range(1, 40, 2)]:
                     plans.append((kind, auto, [(("t", t0), "oo_frame")] + ([(("t", t0 + d), "user_disc")] if d is not None else []), ()))
                     plans.append((kind, auto, [(("t", t0), "oo_frame"), (("t", t0 + 0.7), "oo_frame")] + ([(("t", t0 + d), "user_disc")] if d is not None else []), ()))
                 for dp in ((), ("lost",)):
